@@ -23,7 +23,8 @@ RULE = ("(a) qualified names built from cluster (absent, or a string over letter
         "whose caller is pinned by an explicit version are run, then the callee is edited / removed / turned into "
         "a plain function / moved to another cluster / version-bumped (default and named cluster, filesystem with "
         "and without cache) and a fresh process calls, queries, lists and traces; non-trivial = distinct name "
-        "strings containing at least one of ':' '#' '@' in cluster or version, plus every evolution kind x cluster")
+        "strings containing at least one of ':' '#' '@' in cluster or version, plus every evolution kind x cluster"
+        '; evolutions include re-clustering with the explicit version kept')
 ASSUMPTIONS = ["a qualified name that has more than one valid decomposition under the documented grammar "
                "[cluster::]module:function[#version] cannot be split back by any parser; such strings are "
                "classified by an independent enumerator and reported as the one known finding",
